@@ -1,5 +1,6 @@
 import BHS.Props.C01
 import BHS.Props.SqlShape
+import BHS.Props.ChainSvc
 open BHS.Props.C01
 #print axioms C01_inv_init
 #print axioms C01_inv_step
@@ -14,3 +15,6 @@ open BHS.Props.C01
 #print axioms C01_zero_work_never_lc
 #print axioms C01_zero_work_stays_stale
 #print axioms BHS.Props.SqlShape.add_statements
+#print axioms BHS.Props.ChainSvc.Gen_add_refines
+#print axioms BHS.Props.ChainSvc.Gen_run_refines
+#print axioms BHS.Props.ChainSvc.C01_canonical_generated
